@@ -1286,6 +1286,12 @@ where
     }
 
     fn visit_mut_stmts(&mut self, stmts: &mut Vec<Stmt>) {
+        // declarations still pending from the enclosing code belong to an enclosing
+        // statement list, not to this nested one
+        let outer_consts = mem::take(&mut self.injecting_consts);
+        let outer_vars = mem::take(&mut self.injecting_vars);
+        let outer_slot_counter = mem::replace(&mut self.slot_counter, 1);
+
         stmts.visit_mut_children_with(self);
 
         #[cfg(feature = "verif-hooks")]
@@ -1321,9 +1327,22 @@ where
             );
             self.slot_counter = 1;
         }
+
+        self.injecting_consts = outer_consts;
+        self.injecting_vars = outer_vars;
+        self.slot_counter = outer_slot_counter;
     }
 
     fn visit_mut_arrow_expr(&mut self, arrow_expr: &mut ArrowExpr) {
+        let is_expr_body = matches!(&*arrow_expr.body, BlockStmtOrExpr::Expr(..));
+        let outer = is_expr_body.then(|| {
+            (
+                mem::take(&mut self.injecting_consts),
+                mem::take(&mut self.injecting_vars),
+                mem::replace(&mut self.slot_counter, 1),
+            )
+        });
+
         arrow_expr.visit_mut_children_with(self);
 
         #[cfg(feature = "verif-hooks")]
@@ -1370,6 +1389,12 @@ where
                     ..Default::default()
                 }));
             }
+        }
+
+        if let Some((outer_consts, outer_vars, outer_slot_counter)) = outer {
+            self.injecting_consts = outer_consts;
+            self.injecting_vars = outer_vars;
+            self.slot_counter = outer_slot_counter;
         }
     }
 
